@@ -396,6 +396,8 @@ def gen_case(rng, malformed=False):
             if f == "mkloop":
                 p = gen_mk(rng, sources + ["it", "it"], consts)
                 p["col"] = rng.choice(["message_text", "message_text", "include_if", "choices"])
+                if p["kind"] == "static":
+                    p["kind"] = "stmt"      # the truth-valued cell of include_if has no literal form
             if f == "mkblock":
                 # how the inserted block gets its argument and its data row: each by some kind of markup over a source
                 p = dict(arg=gen_mk(rng, sources, consts), row=gen_mk(rng, sources, consts) if rng.random() < 0.6 else None,
@@ -1138,8 +1140,9 @@ def _build_parser(sheets, idx_rows):
 # =====================================================================================
 # (b) the differential oracle on the real implementation
 # =====================================================================================
-def check_case(ctx, case, alone_budget=3, record=None):
-    """runs A, B, P and some instances alone; returns the number of failing inputs reported"""
+def check_case(ctx, case, alone_budget=3, record=None, history=True):
+    """runs A, B, P, some instances alone and a history of calls on one long-lived parser; returns the number of failing
+    inputs reported"""
     v = ctx.v
     rng_perm = case["perm_seed"]
     import random as _r
@@ -1229,7 +1232,91 @@ def check_case(ctx, case, alone_budget=3, record=None):
             if have != want:
                 fail("instance-text", f"flow {names[k]!r}: texts {have!r}, expected {want!r}")
                 return nfail
+        if history:
+            h = run_history(case, insts, names, alone, B[1], rng_perm, record)
+            if h:
+                fail(h[0], h[1])
     return nfail
+
+
+def history_ops(n_insts, sample, seed):
+    """calls on ONE ContentIndexParser: the sampled instances in a drawn order, one of them again after the others
+    (same template, same data row), a whole parse_all_flows pass somewhere in between, the first one once more at the end"""
+    import random as _r
+    rr = _r.Random(seed ^ 0x5A5A)
+    order = list(sample)
+    rr.shuffle(order)
+    ops = [("flow", k) for k in order]
+    if order:
+        ops.insert(rr.randrange(len(ops) + 1), ("flow", rr.choice(order)))
+    if rr.random() < 0.5:
+        ops.insert(rr.randrange(len(ops) + 1), ("all",))
+    if order and rr.random() < 0.6:
+        ops.append(("flow", order[0]))
+    return ops
+
+
+def run_history(case, insts, names, alone, whole, seed, record=None):
+    """The instances of index B generated by _parse_flow calls on ONE long-lived ContentIndexParser, in another order
+    and repeatedly; each call must give the flow the instance gives when compiled ALONE by a fresh parser (full JSON up
+    to invented uuids), a parse_all_flows pass in between what index B gives.  -> None | (key, summary)"""
+    from rpft.rapidpro.models.containers import RapidProContainer
+
+    sheets = book(case, rows_B(case))
+    r0 = run_cli_mode(_build_from_sheets, sheets)
+    if r0[0] != "ok":
+        return ("history-status", f"index B compiles through create_flows but its parser cannot be built: {r0[1:]}")
+    parser = r0[1]
+    rows = [row for _, row in parser.flow_definition_rows]
+    if len(rows) != len(insts):
+        return None     # duplicate names / malformed: instances and index rows do not pair up
+    ops = history_ops(len(insts), sorted(alone), seed)
+    if record is not None:
+        record["history_ops"] = [o[0] for o in ops]
+        record["history_repeats"] = len(ops) - len(set(ops))
+    snap = {n: (len(ts.table), sorted(vars(ts))) for n, ts in parser.template_sheets.items()}
+    for j, op in enumerate(ops):
+        if op[0] == "flow":
+            k = op[1]
+            row = rows[k]
+            def one(row=row):
+                # what parse_all_flows does for one index row, in a container of its own
+                cont = RapidProContainer()
+                cont.add_flow(parser._parse_flow(row.sheet_name[0], row.data_sheet, row.data_row_id, row.template_arguments, cont, row.new_name))
+                return cont.render()["flows"][0]
+            r = run_cli_mode(one)
+            if r[0] != "ok":
+                return ("history-status", f"call {j} of {ops}: instance {names[k]!r} compiles alone but stops on the long-lived parser: {r[1:]}")
+            d = same_upto(r[1], alone[k][1]["flows"][0], Bij())
+            if d:
+                return ("history-instance", f"call {j} of {ops} on one ContentIndexParser: flow {names[k]!r} differs from the same instance "
+                                            f"compiled alone by a fresh parser: {d}")
+        else:
+            def go():
+                cont = RapidProContainer()
+                parser.parse_all_flows(cont)
+                return cont.render()
+            r = run_cli_mode(go)
+            if r[0] != "ok":
+                return ("history-status", f"call {j} of {ops}: parse_all_flows stops on the long-lived parser: {r[1:]}")
+            d = same_upto(r[1]["flows"], whole["flows"], Bij())
+            if d:
+                return ("history-instance", f"call {j} of {ops} on one ContentIndexParser: parse_all_flows differs from index B compiled afresh: {d}")
+    if record is not None:
+        snap2 = {n: (len(ts.table), sorted(vars(ts))) for n, ts in parser.template_sheets.items()}
+        record["registry_changed"] = snap2 != snap
+    return None
+
+
+def _build_from_sheets(sheets):
+    from rpft.converters import get_content_index_parser
+
+    d = tempfile.mkdtemp(prefix="c12hist")
+    try:
+        write_book(d, sheets)
+        return get_content_index_parser([d], "csv", None, [])
+    finally:
+        shutil.rmtree(d, ignore_errors=True)
 
 
 def run(ctx):
